@@ -220,6 +220,20 @@ def proof_gate(prop_id):
     return res
 
 
+def coqchk_gate(prop_id):
+    """Thorough tier: re-check props/<id>.vo and everything it depends on with the independent checker
+    coqchk, and read its context summary (axioms, type-in-type, unsafe fixpoints, assumed positivity)."""
+    args = "-Q gen KV -Q model KV -Q proofs KV -Q props KV"
+    rc, out, _ = sh("timeout 5400 coqchk -silent -o %s KV.%s" % (args, prop_id), cwd=COQ, timeout=5500)
+    res = {"ok": False, "summary": out[-1500:], "rc": rc}
+    if rc != 0:
+        return res
+    fields = dict(re.findall(r"\* (Axioms|Constants/Inductives relying on type-in-type|Constants/Inductives relying on unsafe \(co\)fixpoints|Inductives whose positivity is assumed): (.*)", out))
+    res["fields"] = fields
+    res["ok"] = len(fields) == 4 and all(v.strip() == "<none>" for v in fields.values())
+    return res
+
+
 _dep_cache = {}
 
 
